@@ -302,7 +302,8 @@ def run_summary(sh, tab, xlim, plot_only_result, interp, api='func', driver='sum
             if s is None:
                 vs.append({'mechanism': 'panel-point-off-grid', 'message': 'panel %s: a point is not at a sample time' % col})
                 break
-            strictly = [i for i in range(len(A['C'])) if A['L'][i] > vmin and A['N'][i] < vmax]
+            # cycles lying entirely inside the view (all their samples are plotted), as in the highlight clause
+            strictly = [i for i in range(len(A['C'])) if A['L'][i] >= vmin and A['N'][i] <= vmax]
             if interp:
                 drawn = set()
                 for si, yi in zip(s.tolist(), py.tolist()):
@@ -317,7 +318,7 @@ def run_summary(sh, tab, xlim, plot_only_result, interp, api='func', driver='sum
                     miss = [i for i in strictly if i not in drawn]
                     if miss:
                         vs.append({'mechanism': 'panel-cycle-missing',
-                                   'message': 'panel %s: cycle %d [%d, %d] lies strictly inside the view [%d, %d] but is not shown (xlim=%s, fs=%g)'
+                                   'message': 'panel %s: cycle %d [%d, %d] lies entirely inside the view [%d, %d] but is not shown (xlim=%s, fs=%g)'
                                               % (col, miss[0], A['L'][miss[0]], A['N'][miss[0]], vmin, vmax, xlim, fs)})
             else:
                 if len(s) % 2:
@@ -339,7 +340,7 @@ def run_summary(sh, tab, xlim, plot_only_result, interp, api='func', driver='sum
                 else:
                     miss = [i for i in strictly if i not in drawn]
                     if miss:
-                        vs.append({'mechanism': 'panel-cycle-missing', 'message': 'panel %s (steps): cycle %d strictly inside the view is not shown' % (col, miss[0])})
+                        vs.append({'mechanism': 'panel-cycle-missing', 'message': 'panel %s (steps): cycle %d entirely inside the view is not shown' % (col, miss[0])})
     finish(sh, case, vs, driver)
     return True, nontrivial
 
